@@ -646,6 +646,15 @@ m('catalog-pages-flushed-ahead-of-log', ['C02', 'C10'], CAT, """	if c.LogManager
 		c.LogManager.Flush()
 	}
 	// flush a page having table definitions""", """	// flush a page having table definitions""", ['C02-R6 [Catalog.insertTable:log-forced-before-catalog-pages]'])
+m('table-name-stored-as-typed', ['C10'], CAT, """	tableMetadata := NewTableMetadata(sc, lowerName, tableHeap, oid, c.LogManager, true)""", """	tableMetadata := NewTableMetadata(sc, name, tableHeap, oid, c.LogManager, true)""", ['C10-R5 [CreateTable:stored-name-is-the-lookup-key]'])
+m('column-scan-stops-at-first-foreign-row', ['C10', 'C09'], CAT, """			if tableOid != oid {
+				continue
+			}""", """			if tableOid != oid {
+				if len(columns) > 0 {
+					break
+				}
+				continue
+			}""", ['C10-R6 [RecoveryCatalogFromCatalogPage:catalog-scan-runs-to-the-end'])
 # drop the one that needs a helper that does not exist
 M = [x for x in M if x['id'] != 'insert-executor-unlocks-early']
 os.chdir(os.path.dirname(os.path.abspath(__file__)) + '/..')
